@@ -41,6 +41,7 @@ def build_kwargs(L):
               extra=pairs_of(L.get('extra')), labels=L.get('labels'), analysis=pairs_of(L.get('analysis')) or None,
               analysis_in=L.get('analysis_in', 'header'), stext=pairs_of(L.get('stext')) or None,
               stext_leading_delim=bool(L.get('stext_leading_delim', True)),
+              analysis_leading_delim=bool(L.get('analysis_leading_delim', True)),
               trailer=str(L.get('trailer', '')).encode('latin-1'))
     return kw
 
